@@ -24,19 +24,37 @@ def run(ctx, L, tier):
 def cache_and_cycle(ctx, L):
     fp = ctx.py.mod('prophyc.file_processor')
     f = fp.func('FileProcessor._process_file')
-    body = [ws(unparse(s)) for s in f.node.body]
-    want = ['abspath = os.path.abspath(path)',
-            'if abspath in self.files: if self.files[abspath] is None: raise CyclicIncludeError(path) return self.files[abspath]',
-            'self.files[abspath] = None',
-            "with codecs.open(path, 'r', encoding='utf-8') as f: content = f.read()",
-            'result = self.process_content(content, path, lambda leaf: self.process_leaf(leaf))',
-            'self.files[abspath] = result', 'return result']
-    for i, w in enumerate(want):
-        L.check(i < len(body) and body[i] == w, 'C16a.cache-protocol', '_process_file|step %d' % i, f.site(),
-                'step %d of the file cache protocol must be `%s` (key = absolute path; a finished file is returned from the cache whatever '
-                'its result is - also an empty node list; `is None` marks a file in progress = cyclic include; the marker is stored '
-                'before and replaced after processing)' % (i, w), body[i] if i < len(body) else '<missing>')
-    L.check(len(body) == len(want), 'C16a.cache-protocol', '_process_file|length', f.site(), 'no further steps', str(len(body)))
+    from . import shared_py as P
+    ok = P.body_is(f, """
+        abspath = os.path.abspath(path)
+        if abspath in self.files:
+            if self.files[abspath] is None:
+                raise CyclicIncludeError(path)
+            return self.files[abspath]
+        self.files[abspath] = None
+        with codecs.open(path, 'r', encoding='utf-8') as f:
+            content = f.read()
+        result = self.process_content(content, path, lambda leaf: self.process_leaf(leaf))
+        self.files[abspath] = result
+        return result
+    """, """
+        abspath = os.path.abspath(path)
+        if abspath in self.files:
+            if self.files[abspath] is None:
+                raise CyclicIncludeError(path)
+            return self.files[abspath]
+        self.files[abspath] = None
+        with codecs.open(path, 'r', encoding='utf-8') as f:
+            content = f.read()
+        result = self.process_content(content, path, self.process_leaf)
+        self.files[abspath] = result
+        return result
+    """, params=['self', 'path'])
+    L.check(ok, 'C16a.cache-protocol', '_process_file|protocol', f.site(),
+            'the file cache protocol must be (in meaning; locals may be named freely): key = absolute path; a finished file is returned '
+            'from the cache whatever its result is - also an empty node list; `is None` marks a file in progress = cyclic include; the '
+            'marker is stored before and replaced by the result after processing; the content is read as UTF-8 and processed with the '
+            'processor\'s own process_leaf for nested includes; got: %s' % P.sem_body(f), ws(unparse(f.node))[:300])
     init = fp.func('FileProcessor.__init__')
     s = ws(unparse(init.node))
     L.check(inn('self.files = {}', s) and inn('self.include_dirs = [d for d in include_dirs]', s), 'C16a.cache-protocol', 'FileProcessor.__init__', init.site(),
@@ -57,22 +75,56 @@ def cache_and_cycle(ctx, L):
 
 def dir_stack(ctx, L):
     fp = ctx.py.mod('prophyc.file_processor')
+    from . import shared_py as P
     p = fp.func('push_dir')
-    L.check(ws(unparse(p.node.body[0])) == 'try: dirs.insert(0, directory) yield dirs finally: dirs.pop(0)', 'C16b.dir-stack', 'push_dir', p.site(),
+    L.check(P.body_is(p, """
+        try:
+            dirs.insert(0, directory)
+            yield dirs
+        finally:
+            dirs.pop(0)
+    """, params=['dirs', 'directory']), 'C16b.dir-stack', 'push_dir', p.site(),
             'the including file\'s directory is pushed at index 0 (searched first) and popped from the same index in finally', ws(unparse(p.node)))
     s = fp.func('swap_dir')
-    L.check(ws(unparse(s.node.body[0])) == 'try: tmp = dirs[0] dirs[0] = directory yield dirs finally: dirs[0] = tmp', 'C16b.dir-stack', 'swap_dir', s.site(),
+    L.check(P.body_is(s, """
+        try:
+            tmp = dirs[0]
+            dirs[0] = directory
+            yield dirs
+        finally:
+            dirs[0] = tmp
+    """, """
+        tmp = dirs[0]
+        try:
+            dirs[0] = directory
+            yield dirs
+        finally:
+            dirs[0] = tmp
+    """, params=['dirs', 'directory']), 'C16b.dir-stack', 'swap_dir', s.site(),
             'an included file\'s directory replaces index 0 for the duration of its processing and the previous one is restored in finally',
             ws(unparse(s.node)))
     pm = fp.func('FileProcessor.process_main')
-    L.check(ws(unparse(pm.node.body[-1])) == 'with push_dir(self.include_dirs, os.path.dirname(path)): return self._process_file(path)', 'C16b.dir-stack',
+    L.check(P.sem_is(pm, pm.node.body[-1], """
+        with push_dir(self.include_dirs, os.path.dirname(path)):
+            return self._process_file(path)
+    """, ['self', 'path']), 'C16b.dir-stack',
             'process_main', pm.site(), 'a main file is processed with its own directory pushed in front', ws(unparse(pm.node)))
     pl = fp.func('FileProcessor.process_leaf')
-    body = [ws(unparse(x)) for x in pl.node.body if not (isinstance(x, ast.Expr) and isinstance(x.value, ast.Constant))]
-    L.check(body == ['path = _get_first_existing_path(leaf, self.include_dirs)', 'if not path: raise FileNotFoundError(leaf)',
-                     'with swap_dir(self.include_dirs, os.path.dirname(path)): return self._process_file(path)'], 'C16b.dir-stack', 'process_leaf',
+    L.check(P.body_is(pl, """
+        path = _get_first_existing_path(leaf, self.include_dirs)
+        if not path:
+            raise FileNotFoundError(leaf)
+        with swap_dir(self.include_dirs, os.path.dirname(path)):
+            return self._process_file(path)
+    """, """
+        path = _get_first_existing_path(leaf, self.include_dirs)
+        if path is None:
+            raise FileNotFoundError(leaf)
+        with swap_dir(self.include_dirs, os.path.dirname(path)):
+            return self._process_file(path)
+    """, params=['self', 'leaf']), 'C16b.dir-stack', 'process_leaf',
             pl.site(), 'every include - whatever its spelling - is processed with the directory of the file that was found in front of the '
-            'search path, so that its own includes resolve next to it first', str(body))
+            'search path, so that its own includes resolve next to it first', P.sem_body(pl))
     g = fp.func('_get_first_existing_path')
     L.check('for directory in dirs: path = os.path.join(directory, leaf)' in ws(unparse(g.node)), 'C16b.dir-stack', '_get_first_existing_path', g.site(),
             'directories are searched in order', '')
